@@ -52,7 +52,10 @@ def _expected(space, x):
 def values(payload):
     rng = np.random.RandomState(payload.get("seed", 0))
     cases = 0
+    lo = np.zeros((2, 3, 3), dtype=np.float32); lo[1] = 16.0
+    hi = np.full((2, 3, 3), 255.0, dtype=np.float32); hi[1] = 20.0      # per-channel bounds (e.g. intensity + depth)
     leaf = [spaces.Box(-1, 1, ()), spaces.Box(-2, 3, (3,)), spaces.Box(0, 255, (2, 4, 4), dtype=np.uint8), spaces.Box(0, 1, (2, 3, 3)),
+            spaces.Box(lo, hi, dtype=np.float32),
             spaces.Discrete(1), spaces.Discrete(2), spaces.Discrete(4), spaces.MultiDiscrete([2, 3]), spaces.MultiBinary(3)]
     for sp in leaf:
         sp.seed(0)
